@@ -1,6 +1,1362 @@
-//! Property C19: correspondence and oracle (stub: nothing built yet).
-use crate::report::Report;
+//! Property C19: configurations are read strictly and round-trip without loss.
+//!
+//! Every case is a JSON tree `J`. It is rendered to text for the real `json5::from_str::<Configuration>`
+//! and sent as an S-expression to the Lean model (`C19.deserializeConfig` / `serializeConfig`, the defs the
+//! theorems are about).
+//!  * correspondence: accept/reject (and, for single faults, the error class) and the exact text of
+//!    `serde_json::to_string(&config)` vs the model's.
+//!  * oracle "strict": every single-field corruption built here (misspelt key, unknown key, wrong type,
+//!    duplicate key, extra property, unknown rule) must be rejected by the real code.
+//!  * oracle "round trip": the re-read of the serialised text must be accepted and must transform a probe
+//!    project exactly like the original; configurations that serialise to the same text must transform
+//!    the probe identically. Failures outside the proved region H19 (`C19.lossless`, asked from the model)
+//!    are the recorded defects (known_findings.json); inside H19 they are violations.
+use crate::model::{hex, unhex, Model};
+use crate::report::{known_findings, Report, Violation};
+use crate::rng::Rng;
+use darklua_core::verif_hooks::filter_pattern_matches;
+use darklua_core::{process, Configuration, Options, Resources, WorkerTree};
+use serde_json::{json, Value};
+use std::collections::BTreeMap;
+use std::path::Path;
 
-pub fn run(report: &mut Report, _replay: Option<&str>) {
-    report.notes.push("C19: no harness yet".to_owned());
+#[derive(Clone, Debug, PartialEq)]
+pub enum J {
+    Null,
+    Bool(bool),
+    Num(i64),
+    /// a number token printed verbatim (non-integers)
+    Raw(String),
+    Str(String),
+    Arr(Vec<J>),
+    Obj(Vec<(String, J)>),
+}
+
+fn json_string(s: &str) -> String {
+    serde_json::to_string(s).unwrap()
+}
+
+impl J {
+    fn text(&self) -> String {
+        match self {
+            J::Null => "null".into(),
+            J::Bool(b) => b.to_string(),
+            J::Num(i) => i.to_string(),
+            J::Raw(t) => t.clone(),
+            J::Str(s) => json_string(s),
+            J::Arr(xs) => format!("[{}]", xs.iter().map(|x| x.text()).collect::<Vec<_>>().join(",")),
+            J::Obj(kvs) => format!(
+                "{{{}}}",
+                kvs.iter().map(|(k, v)| format!("{}:{}", json_string(k), v.text())).collect::<Vec<_>>().join(",")
+            ),
+        }
+    }
+    fn sexp(&self) -> String {
+        match self {
+            J::Null => "z".into(),
+            J::Bool(true) => "t".into(),
+            J::Bool(false) => "f".into(),
+            J::Num(i) => format!("(n {})", i),
+            J::Raw(t) => format!("(r {})", hex(t.as_bytes())),
+            J::Str(s) => format!("(s {})", hex(s.as_bytes())),
+            J::Arr(xs) => format!("(a{})", xs.iter().map(|x| format!(" {}", x.sexp())).collect::<String>()),
+            J::Obj(kvs) => format!(
+                "(o{})",
+                kvs.iter().map(|(k, v)| format!(" ({} {})", hex(k.as_bytes()), v.sexp())).collect::<String>()
+            ),
+        }
+    }
+    fn from_value(v: &Value) -> J {
+        match v {
+            Value::Null => J::Null,
+            Value::Bool(b) => J::Bool(*b),
+            Value::Number(n) => match n.as_i64() {
+                Some(i) => J::Num(i),
+                None => J::Raw(n.to_string()),
+            },
+            Value::String(s) => J::Str(s.clone()),
+            Value::Array(xs) => J::Arr(xs.iter().map(J::from_value).collect()),
+            // serde_json::Map is sorted; only used for hand-written literals where order is irrelevant
+            Value::Object(m) => J::Obj(m.iter().map(|(k, v)| (k.clone(), J::from_value(v))).collect()),
+        }
+    }
+    fn strings(&self, out: &mut Vec<String>) {
+        match self {
+            J::Str(s) => out.push(s.clone()),
+            J::Arr(xs) => xs.iter().for_each(|x| x.strings(out)),
+            J::Obj(kvs) => kvs.iter().for_each(|(_, v)| v.strings(out)),
+            _ => {}
+        }
+    }
+}
+
+/// inverse of `J::sexp` (used by --replay: key order and duplicate keys are preserved)
+fn j_of_sexp(text: &str) -> Option<J> {
+    fn tokens(text: &str) -> Vec<String> {
+        let mut out = Vec::new();
+        let mut cur = String::new();
+        for c in text.chars() {
+            match c {
+                '(' | ')' => {
+                    if !cur.is_empty() {
+                        out.push(std::mem::take(&mut cur));
+                    }
+                    out.push(c.to_string());
+                }
+                ' ' => {
+                    if !cur.is_empty() {
+                        out.push(std::mem::take(&mut cur));
+                    }
+                }
+                c => cur.push(c),
+            }
+        }
+        if !cur.is_empty() {
+            out.push(cur);
+        }
+        out
+    }
+    fn hex_str(t: &str) -> Option<String> {
+        String::from_utf8(unhex(t)?).ok()
+    }
+    fn parse(toks: &[String], pos: &mut usize) -> Option<J> {
+        let t = toks.get(*pos)?;
+        *pos += 1;
+        match t.as_str() {
+            "z" => Some(J::Null),
+            "t" => Some(J::Bool(true)),
+            "f" => Some(J::Bool(false)),
+            "(" => {
+                let head = toks.get(*pos)?.clone();
+                *pos += 1;
+                let result = match head.as_str() {
+                    "n" => {
+                        let v = toks.get(*pos)?.parse::<i64>().ok()?;
+                        *pos += 1;
+                        J::Num(v)
+                    }
+                    "r" => {
+                        let v = hex_str(toks.get(*pos)?)?;
+                        *pos += 1;
+                        J::Raw(v)
+                    }
+                    "s" => {
+                        let v = hex_str(toks.get(*pos)?)?;
+                        *pos += 1;
+                        J::Str(v)
+                    }
+                    "a" => {
+                        let mut xs = Vec::new();
+                        while toks.get(*pos)? != ")" {
+                            xs.push(parse(toks, pos)?);
+                        }
+                        J::Arr(xs)
+                    }
+                    "o" => {
+                        let mut kvs = Vec::new();
+                        while toks.get(*pos)? != ")" {
+                            if toks.get(*pos)? != "(" {
+                                return None;
+                            }
+                            *pos += 1;
+                            let k = hex_str(toks.get(*pos)?)?;
+                            *pos += 1;
+                            let v = parse(toks, pos)?;
+                            if toks.get(*pos)? != ")" {
+                                return None;
+                            }
+                            *pos += 1;
+                            kvs.push((k, v));
+                        }
+                        J::Obj(kvs)
+                    }
+                    _ => return None,
+                };
+                if toks.get(*pos)? != ")" {
+                    return None;
+                }
+                *pos += 1;
+                Some(result)
+            }
+            _ => None,
+        }
+    }
+    let toks = tokens(text);
+    let mut pos = 0;
+    let j = parse(&toks, &mut pos)?;
+    if pos == toks.len() {
+        Some(j)
+    } else {
+        None
+    }
+}
+
+fn s(x: &str) -> J {
+    J::Str(x.to_owned())
+}
+fn arr_s(xs: &[&str]) -> J {
+    J::Arr(xs.iter().map(|x| s(x)).collect())
+}
+fn obj(kvs: Vec<(&str, J)>) -> J {
+    J::Obj(kvs.into_iter().map(|(k, v)| (k.to_owned(), v)).collect())
+}
+
+const BAD_REGEXES: &[&str] = &["(", "[a", "*a", "a{2,1}"];
+
+// ---------------------------------------------------------------------------------------------
+// real side
+// ---------------------------------------------------------------------------------------------
+
+fn real_de(text: &str) -> Result<Configuration, String> {
+    let text = text.to_owned();
+    match std::panic::catch_unwind(move || json5::from_str::<Configuration>(&text).map_err(|e| e.to_string())) {
+        Ok(r) => r,
+        Err(_) => Err("panic".into()),
+    }
+}
+
+fn real_ser(cfg: &Configuration) -> Result<String, String> {
+    match std::panic::catch_unwind(std::panic::AssertUnwindSafe(|| serde_json::to_string(cfg).map_err(|e| e.to_string()))) {
+        Ok(r) => r,
+        Err(_) => Err("panic".into()),
+    }
+}
+
+const PROBE_LUA: &str = "--!keep this\n-- plain comment\nlocal function sideEffect() return true end\nassert(sideEffect(), 'm')\ndebug.profilebegin(sideEffect())\nlocal name = 'n'\nlocal s = `a{name}b`\nfoo = 1\nzed = foo\na = 1\nb = a\nlocal function named() return name end\nlocal m = require('./lib')\ndo end\nlocal unused = nil\nreturn _G.VALUE, VALUE, s, m, named, zed, b, name .. name .. name .. name .. name .. name .. name .. name .. name .. name .. name .. name .. name .. name\n";
+const PROBE_ATTR: &str = "@native\nlocal function nat() return 1 end\n@checked\nlocal function chk() return 2 end\nreturn nat, chk\n";
+const PROBE_LIB: &str = "local lib = {}\nlib.x = 1 + 1\nreturn lib\n";
+
+fn probe_resources() -> Resources {
+    let r = Resources::from_memory();
+    r.write("src/a.lua", PROBE_LUA).unwrap();
+    r.write("src/b.lua", PROBE_LUA).unwrap();
+    r.write("src/attr.luau", PROBE_ATTR).unwrap();
+    r.write("src/lib.lua", PROBE_LIB).unwrap();
+    r.write("note.txt", "from file").unwrap();
+    r
+}
+
+const PROBE_OUTPUTS: &[&str] = &["out/a.lua", "out/b.lua", "out/attr.luau", "out/lib.lua"];
+
+/// what a configuration does to the probe project: every output file, or the error texts
+fn behaviour(cfg: Configuration) -> String {
+    let result = std::panic::catch_unwind(std::panic::AssertUnwindSafe(move || {
+        let resources = probe_resources();
+        let options = Options::new("src").with_output("out").with_configuration(cfg);
+        let mut text = String::new();
+        match process(&resources, options) {
+            Err(e) => text.push_str(&format!("process-error: {}\n", e)),
+            Ok(tree) => {
+                let mut errors: Vec<String> = tree.collect_errors().iter().map(|e| e.to_string()).collect();
+                errors.sort();
+                for e in errors {
+                    text.push_str(&format!("error: {}\n", e));
+                }
+            }
+        }
+        for o in PROBE_OUTPUTS {
+            match resources.get(o) {
+                Ok(c) => text.push_str(&format!("== {}\n{}\n", o, c)),
+                Err(_) => text.push_str(&format!("== {} (absent)\n", o)),
+            }
+        }
+        text
+    }));
+    result.unwrap_or_else(|_| "panic".to_owned())
+}
+
+// ---------------------------------------------------------------------------------------------
+// model side
+// ---------------------------------------------------------------------------------------------
+
+#[derive(Debug, Clone, PartialEq)]
+enum ModelAnswer {
+    Err(String),
+    Ok { text: String, roundtrip: String, in_h: bool, wf: bool },
+    Bad(String),
+}
+
+fn model_request(j: &J) -> String {
+    let mut strings = Vec::new();
+    j.strings(&mut strings);
+    strings.sort();
+    strings.dedup();
+    let bad_globs: Vec<String> = strings
+        .iter()
+        .filter(|p| {
+            let p = (*p).clone();
+            !matches!(std::panic::catch_unwind(move || filter_pattern_matches(&p, Path::new("a"))), Ok(Ok(_)))
+        })
+        .map(|p| hex(p.as_bytes()))
+        .collect();
+    let bad_regex: Vec<String> =
+        strings.iter().filter(|p| BAD_REGEXES.contains(&p.as_str())).map(|p| hex(p.as_bytes())).collect();
+    format!(
+        "c19.cfg (req {} (bg{}) (br{}))",
+        j.sexp(),
+        bad_globs.iter().map(|x| format!(" {}", x)).collect::<String>(),
+        bad_regex.iter().map(|x| format!(" {}", x)).collect::<String>()
+    )
+}
+
+fn parse_model(answer: &str) -> ModelAnswer {
+    let parts: Vec<&str> = answer.split(' ').collect();
+    match parts.as_slice() {
+        ["err", class] => ModelAnswer::Err((*class).to_owned()),
+        ["ok", text, rt, h, wf] => match unhex(text).and_then(|b| String::from_utf8(b).ok()) {
+            Some(t) => ModelAnswer::Ok { text: t, roundtrip: (*rt).to_owned(), in_h: *h == "in", wf: *wf == "wf" },
+            None => ModelAnswer::Bad(answer.to_owned()),
+        },
+        _ => ModelAnswer::Bad(answer.to_owned()),
+    }
+}
+
+/// does the real error message belong to the model's error class?
+fn class_matches(class: &str, message: &str) -> bool {
+    let m = message;
+    match class {
+        "unknown-field" => m.contains("unknown field"),
+        "duplicate-field" => m.contains("duplicate field"),
+        "missing-field" | "missing-field-rule" => m.contains("missing field"),
+        "invalid-rule-name" => m.contains("invalid rule name"),
+        // a rule's `configure`: one corruption can trip several of its checks (a misspelt required key is
+        // both unexpected and missing); which one reports first is not part of the property
+        "unexpected-field" | "kind-expected" | "required-or-collision" => {
+            m.contains("unexpected field")
+                || m.contains("expected for field")
+                || m.contains("unexpected value for field")
+                || m.contains("unexpected type for field")
+                || m.contains("missing required field")
+                || m.contains("missing one field")
+                || m.contains("cannot be defined together")
+        }
+        "one-or-many" => m.contains("OneOrMany"),
+        "expected-string" => m.contains("expected string"),
+        "invalid-generator-name" => m.contains("invalid generator name"),
+        "invalid-require-mode" => m.contains("invalid require mode"),
+        "unknown-variant" => m.contains("unknown variant"),
+        "invalid-type" | "invalid-type-rule" => {
+            m.contains("invalid type") || m.contains("invalid value") || m.contains("expected ")
+        }
+        _ => false,
+    }
+}
+
+// ---------------------------------------------------------------------------------------------
+// generators
+// ---------------------------------------------------------------------------------------------
+
+/// valid property sets of the parameterised rules (object form, without filters)
+fn rule_variants(name: &str) -> Vec<Vec<(&'static str, J)>> {
+    match name {
+        "append_text_comment" => vec![
+            vec![("text", s("hi"))],
+            vec![("text", s(""))],
+            vec![("file", s("note.txt"))],
+            vec![("text", s("hi")), ("location", s("start"))],
+            vec![("text", s("hi \"q\" \\ there")), ("location", s("end"))],
+            vec![("file", s("note.txt")), ("location", s("end"))],
+        ],
+        "remove_assertions" | "remove_debug_profiling" => vec![
+            vec![],
+            vec![("preserve_arguments_side_effects", J::Bool(true))],
+            vec![("preserve_arguments_side_effects", J::Bool(false))],
+        ],
+        "remove_comments" => vec![
+            vec![],
+            vec![("except", arr_s(&[]))],
+            vec![("except", arr_s(&["^--!"]))],
+            vec![("except", arr_s(&["plain", "^--!keep"]))],
+        ],
+        "remove_attribute" => vec![
+            vec![],
+            vec![("match", arr_s(&[]))],
+            vec![("match", arr_s(&["native"]))],
+            vec![("match", arr_s(&["^c", "zzz"]))],
+        ],
+        "remove_interpolated_string" => {
+            vec![vec![], vec![("strategy", s("string"))], vec![("strategy", s("tostring"))]]
+        }
+        "convert_require" => vec![
+            vec![("current", s("path")), ("target", s("roblox"))],
+            vec![("current", s("path")), ("target", s("path"))],
+            vec![("current", s("luau")), ("target", s("path"))],
+            vec![("target", s("luau")), ("current", s("path"))],
+        ],
+        "rename_variables" => vec![
+            vec![],
+            vec![("globals", arr_s(&[]))],
+            vec![("globals", arr_s(&["$default"]))],
+            vec![("globals", arr_s(&["$roblox"]))],
+            vec![("globals", arr_s(&["b", "a", "b"]))],
+            vec![("globals", arr_s(&["b", "a", "zed"])), ("detect_globals", J::Bool(false))],
+            vec![("include_functions", J::Bool(true))],
+            vec![("include_functions", J::Bool(false))],
+            vec![("detect_globals", J::Bool(false))],
+            vec![("detect_globals", J::Bool(true))],
+            vec![("globals", arr_s(&["a", "$roblox"])), ("include_functions", J::Bool(true)), ("detect_globals", J::Bool(false))],
+        ],
+        "inject_global_value" => {
+            let id = ("identifier", s("VALUE"));
+            let mut v = vec![vec![id.clone()]];
+            for value in [
+                J::Bool(true),
+                J::Bool(false),
+                J::Num(1),
+                J::Num(0),
+                J::Num(-2),
+                J::Raw("1.5".into()),
+                J::Raw("-0.25".into()),
+                s("x"),
+                s(""),
+                J::Null,
+                arr_s(&["a", "b"]),
+                arr_s(&[]),
+            ] {
+                v.push(vec![id.clone(), ("value", value.clone())]);
+                v.push(vec![("default_value", value), id.clone(), ("env", s("DLV_C19_UNSET_VARIABLE"))]);
+            }
+            v.push(vec![id.clone(), ("env", s("DLV_C19_UNSET_VARIABLE"))]);
+            v.push(vec![id.clone(), ("env_json", s("DLV_C19_UNSET_VARIABLE"))]);
+            v.push(vec![id.clone(), ("default_value", s("d"))]);
+            v.push(vec![("identifier", s("other"))]);
+            v
+        }
+        _ => vec![vec![]],
+    }
+}
+
+/// filter forms: (apply, skip); patterns discriminate the probe tree
+fn filter_forms() -> Vec<(Option<J>, Option<J>)> {
+    let applies = [None, Some(s("src/a.lua")), Some(arr_s(&["**/a.lua"])), Some(arr_s(&["**/a.lua", "**/attr.*"])), Some(arr_s(&[]))];
+    let skips = [None, Some(s("**/b.lua")), Some(arr_s(&["src/b.lua"])), Some(arr_s(&["nomatch/**", "src/b.*"])), Some(arr_s(&[]))];
+    let mut out = Vec::new();
+    for a in &applies {
+        for k in &skips {
+            out.push((a.clone(), k.clone()));
+        }
+    }
+    out
+}
+
+fn rule_object(name: &str, props: &[(&'static str, J)], filters: &(Option<J>, Option<J>), filters_first: bool) -> J {
+    let mut kvs: Vec<(String, J)> = Vec::new();
+    let mut filter_kvs = Vec::new();
+    if let Some(a) = &filters.0 {
+        filter_kvs.push(("apply_to_files".to_owned(), a.clone()));
+    }
+    if let Some(k) = &filters.1 {
+        filter_kvs.push(("skip_files".to_owned(), k.clone()));
+    }
+    if filters_first {
+        kvs.extend(filter_kvs.clone());
+    }
+    kvs.push(("rule".to_owned(), s(name)));
+    for (k, v) in props {
+        kvs.push(((*k).to_owned(), v.clone()));
+    }
+    if !filters_first {
+        kvs.extend(filter_kvs);
+    }
+    J::Obj(kvs)
+}
+
+fn config_with_rules(rules: Vec<J>) -> J {
+    J::Obj(vec![("rules".to_owned(), J::Arr(rules))])
+}
+
+fn generator_forms() -> Vec<J> {
+    let mut v = vec![s("retain_lines"), s("retain-lines"), s("dense"), s("readable")];
+    for name in ["retain_lines", "retain-lines", "dense", "readable"] {
+        v.push(obj(vec![("name", s(name))]));
+    }
+    for name in ["dense", "readable"] {
+        for span in [0, 1, 20, 80, 120] {
+            v.push(obj(vec![("name", s(name)), ("column_span", J::Num(span))]));
+            v.push(obj(vec![("column_span", J::Num(span)), ("name", s(name))]));
+        }
+    }
+    v
+}
+
+fn bundle_forms() -> Vec<J> {
+    let mut modes = vec![s("path"), s("luau"), obj(vec![("name", s("path"))]), obj(vec![("name", s("luau"))])];
+    for folder in ["init", "index"] {
+        modes.push(obj(vec![("name", s("path")), ("module_folder_name", s(folder))]));
+        for b in [true, false] {
+            modes.push(obj(vec![("module_folder_name", s(folder)), ("use_luau_configuration", J::Bool(b)), ("name", s("path"))]));
+        }
+    }
+    for b in [true, false] {
+        modes.push(obj(vec![("name", s("luau")), ("use_luau_configuration", J::Bool(b))]));
+    }
+    let mut v = vec![J::Null];
+    for m in &modes {
+        v.push(obj(vec![("require_mode", m.clone())]));
+    }
+    for m in modes.iter().take(3) {
+        for ident in [None, Some(J::Null), Some(s("__M"))] {
+            for excludes in [None, Some(arr_s(&[])), Some(arr_s(&["./lib"])), Some(arr_s(&["@x", "@x"]))] {
+                let mut kvs = vec![("require_mode", m.clone())];
+                if let Some(i) = &ident {
+                    kvs.push(("modules_identifier", i.clone()));
+                }
+                if let Some(e) = &excludes {
+                    kvs.push(("excludes", e.clone()));
+                }
+                v.push(obj(kvs));
+            }
+        }
+    }
+    v
+}
+
+#[derive(Clone)]
+struct Case {
+    j: J,
+    /// how the case was built; corruptions carry the kind of fault
+    origin: String,
+    /// Some(kind) when this is a single-field corruption that the property says must be rejected
+    must_reject: Option<String>,
+}
+
+fn valid_cases(rule_names: &[String], _thorough: bool) -> Vec<Case> {
+    let mut cases = Vec::new();
+    let filters = filter_forms();
+    for name in rule_names {
+        cases.push(Case { j: config_with_rules(vec![s(name)]), origin: format!("rule-string:{}", name), must_reject: None });
+        for (vi, props) in rule_variants(name).iter().enumerate() {
+            for (fi, f) in filters.iter().enumerate() {
+                cases.push(Case {
+                    j: config_with_rules(vec![rule_object(name, props, f, fi % 2 == 1)]),
+                    origin: format!("rule-object:{}:variant{}:filter{}", name, vi, fi),
+                    must_reject: None,
+                });
+            }
+        }
+    }
+    // generator forms and bundle settings, alone and combined with rules and top-level filters
+    let some_rules = J::Arr(vec![s("remove_empty_do"), rule_object("remove_comments", &[], &(Some(s("src/a.lua")), None), false)]);
+    for g in generator_forms() {
+        cases.push(Case { j: obj(vec![("generator", g.clone())]), origin: "generator".into(), must_reject: None });
+        cases.push(Case {
+            j: obj(vec![("generator", g), ("rules", some_rules.clone())]),
+            origin: "generator+rules".into(),
+            must_reject: None,
+        });
+    }
+    for b in bundle_forms() {
+        cases.push(Case { j: obj(vec![("bundle", b.clone()), ("rules", J::Arr(vec![]))]), origin: "bundle".into(), must_reject: None });
+        cases.push(Case {
+            j: obj(vec![("rules", some_rules.clone()), ("bundle", b), ("generator", s("dense"))]),
+            origin: "bundle+rules".into(),
+            must_reject: None,
+        });
+    }
+    for (a, k) in filter_forms() {
+        let mut kvs = vec![("process", some_rules.clone())];
+        if let Some(a) = a {
+            kvs.push(("apply_to_files", a));
+        }
+        if let Some(k) = k {
+            kvs.push(("skip_files", k));
+        }
+        cases.push(Case { j: obj(kvs), origin: "top-filters".into(), must_reject: None });
+    }
+    cases.push(Case { j: obj(vec![]), origin: "empty".into(), must_reject: None });
+    cases
+}
+
+fn random_valid_case(rng: &mut Rng, rule_names: &[String]) -> Case {
+    let filters = filter_forms();
+    let n = 1 + rng.below(4);
+    let mut rules = Vec::new();
+    for _ in 0..n {
+        let name = rng.pick(rule_names).clone();
+        let variants = rule_variants(&name);
+        let props = rng.pick(&variants).clone();
+        if props.is_empty() && rng.chance(1, 3) && !matches!(name.as_str(), "append_text_comment" | "convert_require" | "inject_global_value") {
+            rules.push(s(&name));
+        } else {
+            let f = if rng.chance(1, 2) { (None, None) } else { rng.pick(&filters).clone() };
+            rules.push(rule_object(&name, &props, &f, rng.chance(1, 2)));
+        }
+    }
+    let mut kvs = vec![(if rng.chance(1, 4) { "process" } else { "rules" }, J::Arr(rules))];
+    if rng.chance(1, 2) {
+        kvs.push(("generator", rng.pick(&generator_forms()).clone()));
+    }
+    if rng.chance(1, 4) {
+        kvs.push(("bundle", rng.pick(&bundle_forms()).clone()));
+    }
+    if rng.chance(1, 3) {
+        let (a, k) = rng.pick(&filters).clone();
+        if let Some(a) = a {
+            kvs.push(("apply_to_files", a));
+        }
+        if let Some(k) = k {
+            kvs.push(("skip_files", k));
+        }
+    }
+    rng.shuffle(&mut kvs);
+    Case { j: obj(kvs), origin: "random".into(), must_reject: None }
+}
+
+/// paths to every object in the tree (as index paths), with a label of what the object is
+fn object_paths(j: &J, path: &mut Vec<usize>, out: &mut Vec<Vec<usize>>) {
+    match j {
+        J::Obj(kvs) => {
+            out.push(path.clone());
+            for (i, (_, v)) in kvs.iter().enumerate() {
+                path.push(i);
+                object_paths(v, path, out);
+                path.pop();
+            }
+        }
+        J::Arr(xs) => {
+            for (i, v) in xs.iter().enumerate() {
+                path.push(i);
+                object_paths(v, path, out);
+                path.pop();
+            }
+        }
+        _ => {}
+    }
+}
+
+fn get_mut<'a>(j: &'a mut J, path: &[usize]) -> &'a mut J {
+    let mut cur = j;
+    for i in path {
+        cur = match cur {
+            J::Obj(kvs) => &mut kvs[*i].1,
+            J::Arr(xs) => &mut xs[*i],
+            other => other,
+        };
+    }
+    cur
+}
+
+fn wrong_type_values(current: &J) -> Vec<J> {
+    let all = vec![J::Bool(true), J::Num(7), s("zzz"), J::Null, J::Arr(vec![J::Num(1)]), obj(vec![("q", J::Num(1))])];
+    all.into_iter()
+        .filter(|c| std::mem::discriminant(c) != std::mem::discriminant(current))
+        .collect()
+}
+
+/// keys whose value may legitimately take several JSON types (so a type swap is not a corruption)
+fn polymorphic_key(key: &str) -> bool {
+    matches!(key, "value" | "default_value")
+}
+
+/// all single-field corruptions of a valid configuration tree
+fn corruptions(base: &Case, all_property_keys: &[String], schema: &[(String, String, String)]) -> Vec<Case> {
+    let mut out = Vec::new();
+    let mut paths = Vec::new();
+    object_paths(&base.j, &mut Vec::new(), &mut paths);
+    for p in &paths {
+        let n_keys = match get_mut(&mut base.j.clone(), p) {
+            J::Obj(kvs) => kvs.len(),
+            _ => 0,
+        };
+        // extra / unknown property
+        for extra in ["foo", "Rule", "rules ", "location"].iter().map(|x| x.to_string()).chain(all_property_keys.iter().cloned()) {
+            let mut j = base.j.clone();
+            if let J::Obj(kvs) = get_mut(&mut j, p) {
+                if kvs.iter().any(|(k, _)| *k == extra) {
+                    continue;
+                }
+                // a property of this very rule is not an unknown key
+                let rule_name = kvs.iter().find(|(k, _)| k == "rule").and_then(|(_, v)| if let J::Str(n) = v { Some(n.clone()) } else { None });
+                if let Some(n) = rule_name {
+                    if schema.iter().any(|(r, k, _)| *r == n && *k == extra) || extra == "apply_to_files" || extra == "skip_files" {
+                        continue;
+                    }
+                }
+                kvs.push((extra.clone(), J::Num(1)));
+            }
+            out.push(Case { j, origin: format!("{} + extra key `{}`", base.origin, extra), must_reject: Some("extra-key".into()) });
+        }
+        for i in 0..n_keys {
+            // misspelt key
+            for variant in 0..2 {
+                let mut j = base.j.clone();
+                let mut key_name = String::new();
+                if let J::Obj(kvs) = get_mut(&mut j, p) {
+                    key_name = kvs[i].0.clone();
+                    kvs[i].0 = if variant == 0 { format!("{}x", kvs[i].0) } else { kvs[i].0[..kvs[i].0.len().saturating_sub(1)].to_owned() };
+                }
+                out.push(Case { j, origin: format!("{} + misspelt `{}`", base.origin, key_name), must_reject: Some("misspelt-key".into()) });
+            }
+            // duplicate key
+            {
+                let mut j = base.j.clone();
+                let mut key_name = String::new();
+                if let J::Obj(kvs) = get_mut(&mut j, p) {
+                    key_name = kvs[i].0.clone();
+                    let dup = kvs[i].clone();
+                    kvs.push(dup);
+                }
+                out.push(Case { j, origin: format!("{} + duplicate `{}`", base.origin, key_name), must_reject: Some("duplicate-key".into()) });
+            }
+            // wrong type
+            let (key_name, current) = match get_mut(&mut base.j.clone(), p) {
+                J::Obj(kvs) => kvs[i].clone(),
+                _ => continue,
+            };
+            // a string where only some strings are allowed: a wrong *value*
+            if matches!(key_name.as_str(), "location" | "strategy" | "name" | "require_mode" | "current" | "target" | "generator")
+                && matches!(current, J::Str(_))
+            {
+                let mut j = base.j.clone();
+                if let J::Obj(kvs) = get_mut(&mut j, p) {
+                    kvs[i].1 = s("zzz");
+                }
+                out.push(Case {
+                    j,
+                    origin: format!("{} + `{}` := \"zzz\"", base.origin, key_name),
+                    must_reject: Some("wrong-value".into()),
+                });
+            }
+            for w in wrong_type_values(&current) {
+                // legitimate alternatives: string <-> array for filters; string <-> object for generator and
+                // require modes; null for the optional bundle / modules_identifier; anything for `value`
+                let legit = polymorphic_key(&key_name)
+                    || (matches!(key_name.as_str(), "apply_to_files" | "skip_files") && matches!(w, J::Str(_)))
+                    || (matches!(key_name.as_str(), "bundle" | "modules_identifier") && matches!(w, J::Null))
+                    || (matches!(key_name.as_str(), "generator" | "require_mode" | "current" | "target") && matches!(w, J::Obj(_) | J::Str(_)));
+                if legit {
+                    continue;
+                }
+                let mut j = base.j.clone();
+                if let J::Obj(kvs) = get_mut(&mut j, p) {
+                    kvs[i].1 = w.clone();
+                }
+                out.push(Case {
+                    j,
+                    origin: format!("{} + `{}` := {}", base.origin, key_name, w.text()),
+                    must_reject: Some("wrong-type".into()),
+                });
+            }
+        }
+    }
+    out
+}
+
+// ---------------------------------------------------------------------------------------------
+// checking
+// ---------------------------------------------------------------------------------------------
+
+struct Outcome {
+    case: Case,
+    violations: Vec<Violation>,
+    accepted: bool,
+    /// serialised text and probe behaviour of accepted configurations
+    serialised: Option<(String, String)>,
+    in_h: Option<bool>,
+    roundtrip_failed: Option<String>,
+    model_rt: Option<String>,
+}
+
+fn case_input(case: &Case) -> Value {
+    json!({"kind": "config", "text": case.j.text(), "sexp": case.j.sexp(), "origin": case.origin, "must_reject": case.must_reject})
+}
+
+fn check_case(case: &Case, model: &mut Model) -> Outcome {
+    let text = case.j.text();
+    let real = real_de(&text);
+    let answer = parse_model(&model.ask(&model_request(&case.j)));
+    let mut out = Outcome {
+        case: case.clone(),
+        violations: Vec::new(),
+        accepted: real.is_ok(),
+        serialised: None,
+        in_h: None,
+        roundtrip_failed: None,
+        model_rt: None,
+    };
+    let input = case_input(case);
+    // ---- oracle: strictness (judged by construction of the corruption, not by the model)
+    if let (Some(kind), Ok(_)) = (&case.must_reject, &real) {
+        out.violations.push(Violation {
+            kind: "oracle".into(),
+            check: format!("strict-{}", kind),
+            what: format!("corrupted configuration accepted ({}): {}", case.origin, text),
+            input: input.clone(),
+            failing_input_found: true,
+        });
+    }
+    // ---- correspondence: accept / reject / class / text
+    match (&real, &answer) {
+        (_, ModelAnswer::Err(class)) if class == "unmodelled" => {}
+        (Err(message), ModelAnswer::Err(class)) => {
+            if case.must_reject.is_some() && !class_matches(class, message) {
+                out.violations.push(Violation {
+                    kind: "correspondence".into(),
+                    check: "error-class".into(),
+                    what: format!("model rejects with class `{}`, real message: {}", class, message),
+                    input: input.clone(),
+                    failing_input_found: false,
+                });
+            }
+        }
+        (Ok(cfg), ModelAnswer::Ok { text: model_text, roundtrip, in_h, wf }) => {
+            out.in_h = Some(*in_h);
+            if !*wf {
+                // `roundtrip_partial` assumes `configWF`; every state the model deserialises must satisfy it
+                out.violations.push(Violation {
+                    kind: "correspondence".into(),
+                    check: "model-state-well-formed".into(),
+                    what: "the model accepted this configuration into a state outside configWF".into(),
+                    input: input.clone(),
+                    failing_input_found: false,
+                });
+            }
+            if *in_h && roundtrip != "same" {
+                out.violations.push(Violation {
+                    kind: "correspondence".into(),
+                    check: "model-roundtrip-inside-H".into(),
+                    what: format!("inside H19 the model itself does not round-trip: {}", roundtrip),
+                    input: input.clone(),
+                    failing_input_found: false,
+                });
+            }
+            out.model_rt = Some(roundtrip.clone());
+            match real_ser(cfg) {
+                Ok(real_text) => {
+                    if real_text != *model_text {
+                        out.violations.push(Violation {
+                            kind: "correspondence".into(),
+                            check: "serialised-text".into(),
+                            what: format!("serde_json::to_string gives {} but the model gives {}", real_text, model_text),
+                            input: input.clone(),
+                            failing_input_found: false,
+                        });
+                    }
+                }
+                Err(e) => out.violations.push(Violation {
+                    kind: "oracle".into(),
+                    check: "serialises".into(),
+                    what: format!("an accepted configuration cannot be serialised: {}", e),
+                    input: input.clone(),
+                    failing_input_found: true,
+                }),
+            }
+        }
+        (Ok(_), ModelAnswer::Err(class)) => out.violations.push(Violation {
+            kind: "correspondence".into(),
+            check: "accept-reject".into(),
+            what: format!("real code accepts, model rejects with `{}`", class),
+            input: input.clone(),
+            failing_input_found: false,
+        }),
+        (Err(message), ModelAnswer::Ok { .. }) => out.violations.push(Violation {
+            kind: "correspondence".into(),
+            check: "accept-reject".into(),
+            what: format!("model accepts, real code rejects: {}", message),
+            input: input.clone(),
+            failing_input_found: false,
+        }),
+        (_, ModelAnswer::Bad(a)) => out.violations.push(Violation {
+            kind: "correspondence".into(),
+            check: "driver".into(),
+            what: format!("model driver answered `{}`", a),
+            input: input.clone(),
+            failing_input_found: false,
+        }),
+    }
+    // ---- oracle: round trip, on the real code only
+    if let Ok(cfg) = real {
+        if let Ok(real_text) = real_ser(&cfg) {
+            let original_behaviour = behaviour(cfg);
+            match real_de(&real_text) {
+                Err(e) => out.roundtrip_failed = Some(format!("the serialised text {} is rejected when read back: {}", real_text, e)),
+                Ok(cfg2) => {
+                    let text2 = real_ser(&cfg2).unwrap_or_default();
+                    let behaviour2 = behaviour(cfg2);
+                    if behaviour2 != original_behaviour {
+                        out.roundtrip_failed = Some(format!(
+                            "after the round trip through {} the probe project is transformed differently",
+                            real_text
+                        ));
+                    } else if text2 != real_text {
+                        out.roundtrip_failed = Some(format!("serialisation is not stable: {} then {}", real_text, text2));
+                    }
+                }
+            }
+            out.serialised = Some((real_text, original_behaviour));
+        }
+    }
+    // model says lossless but the real round trip fails, or the reverse inside H: settled by the caller
+    out
+}
+
+fn run_cases(cases: Vec<Case>) -> Vec<Outcome> {
+    let n_threads = 16usize;
+    let chunk = ((cases.len() + n_threads - 1) / n_threads).max(1);
+    std::thread::scope(|scope| {
+        let handles: Vec<_> = cases
+            .chunks(chunk)
+            .map(|c| {
+                scope.spawn(move || {
+                    let mut model = Model::spawn();
+                    c.iter().map(|case| check_case(case, &mut model)).collect::<Vec<_>>()
+                })
+            })
+            .collect();
+        handles.into_iter().flat_map(|h| h.join().expect("case thread")).collect()
+    })
+}
+
+fn settle(report: &mut Report, outcomes: Vec<Outcome>, groups: &mut BTreeMap<String, Vec<(String, String, bool)>>) {
+    let mut n_samples = 0;
+    for o in outcomes {
+        let nontrivial = o.case.must_reject.is_some()
+            || o.case.j.text().contains("_files")
+            || matches!(&o.serialised, Some((t, _)) if t.contains("{\"rule\""))
+            || o.case.origin.starts_with("generator")
+            || o.case.origin.starts_with("bundle");
+        report.case(if nontrivial { Some(o.case.j.text()) } else { None });
+        let bucket = match (&o.case.must_reject, o.accepted) {
+            (Some(k), false) => format!("corruption rejected: {}", k),
+            (Some(k), true) => format!("corruption ACCEPTED: {}", k),
+            (None, true) => "valid accepted".to_owned(),
+            (None, false) => "valid-by-construction rejected (string form of a rule with required properties, …)".to_owned(),
+        };
+        report.hist("case", &bucket);
+        report.hist("origin", o.case.origin.split(':').next().unwrap_or("").split(" + ").next().unwrap_or(""));
+        if let Some(rt) = &o.model_rt {
+            report.hist("model-roundtrip", &rt.split(':').next().unwrap_or("").to_owned());
+        }
+        if let Some(h) = o.in_h {
+            report.hist("H19", if h { "inside" } else { "outside" });
+        }
+        let mut violations = o.violations;
+        // known region: strictness hole of the unit generator variant (recorded finding)
+        violations.retain(|v| {
+            if v.check.starts_with("strict-") && is_retain_lines_extra_field(&o.case) {
+                report.count("known_region_strict_retain_lines_extra_field", 1);
+                false
+            } else if v.check.starts_with("strict-") && is_require_mode_sequence(&o.case) {
+                report.count("known_region_strict_require_mode_sequence", 1);
+                false
+            } else {
+                true
+            }
+        });
+        if let Some(why) = &o.roundtrip_failed {
+            match o.in_h {
+                Some(true) => violations.push(Violation {
+                    kind: "oracle".into(),
+                    check: "roundtrip".into(),
+                    what: format!("inside H19 (lossless) yet: {}", why),
+                    input: case_input(&o.case),
+                    failing_input_found: true,
+                }),
+                Some(false) => report.count("known_region_roundtrip_failures", 1),
+                None => report.count("roundtrip_failures_unmodelled", 1),
+            }
+        }
+        // the model's own round-trip verdict must never be more optimistic than the code's behaviour
+        if let (Some(rt), Some(_)) = (&o.model_rt, &o.roundtrip_failed) {
+            if rt == "same" && o.in_h == Some(false) {
+                // outside H but the model round-trips exactly: then the real failure is not explained
+                violations.push(Violation {
+                    kind: "correspondence".into(),
+                    check: "roundtrip-verdict".into(),
+                    what: format!("model round-trips this configuration exactly, real code: {}", o.roundtrip_failed.clone().unwrap()),
+                    input: case_input(&o.case),
+                    failing_input_found: false,
+                });
+            }
+        }
+        if let Some((text, behaviour)) = o.serialised {
+            groups.entry(text).or_default().push((o.case.j.text(), behaviour, o.in_h.unwrap_or(false)));
+        }
+        if nontrivial && n_samples < 8 && o.case.must_reject.is_none() && o.accepted {
+            report.sample(json!({"config": o.case.j.text(), "origin": o.case.origin, "model_roundtrip": o.model_rt, "in_H19": o.in_h}));
+            n_samples += 1;
+        }
+        for v in violations {
+            report.violation(v);
+        }
+    }
+}
+
+/// `current: [1]` / `target: [0]`: serde reads a sequence as a tagged enum (variant index first)
+fn is_require_mode_sequence(case: &Case) -> bool {
+    fn find(j: &J) -> bool {
+        match j {
+            J::Obj(kvs) => kvs.iter().any(|(k, v)| {
+                ((k == "current" || k == "target") && matches!(v, J::Arr(xs) if matches!(xs.first(), Some(J::Num(0..=2))))) || find(v)
+            }),
+            J::Arr(xs) => xs.iter().any(find),
+            _ => false,
+        }
+    }
+    find(&case.j)
+}
+
+fn is_retain_lines_extra_field(case: &Case) -> bool {
+    // {generator: {name: 'retain_lines' | 'retain-lines', <anything else>}} with the fault inside that object
+    fn find(j: &J) -> bool {
+        match j {
+            J::Obj(kvs) => {
+                kvs.iter().any(|(k, v)| {
+                    k == "generator"
+                        && matches!(v, J::Obj(g) if g.len() > 1
+                            && g.iter().filter(|(k, _)| k == "name").count() == 1
+                            && g.iter().any(|(k, v)| k == "name" && matches!(v, J::Str(n) if n == "retain_lines" || n == "retain-lines")))
+                }) || kvs.iter().any(|(_, v)| find(v))
+            }
+            J::Arr(xs) => xs.iter().any(find),
+            _ => false,
+        }
+    }
+    case.origin.contains("generator") && find(&case.j)
+}
+
+/// "two configurations that behave differently never serialise to the same text"
+fn check_groups(report: &mut Report, groups: &BTreeMap<String, Vec<(String, String, bool)>>) {
+    for (text, members) in groups {
+        report.count("distinct_serialised_texts", 1);
+        let inside: Vec<&(String, String, bool)> = members.iter().filter(|m| m.2).collect();
+        // inside H19: all members must behave the same
+        if let Some(first) = inside.first() {
+            for m in &inside {
+                if m.1 != first.1 {
+                    report.violation(Violation {
+                        kind: "oracle".into(),
+                        check: "distinct-configs-distinct-text".into(),
+                        what: format!("`{}` and `{}` behave differently on the probe but both serialise to {}", first.0, m.0, text),
+                        input: json!({"kind": "pair", "a": first.0, "b": m.0}),
+                        failing_input_found: true,
+                    });
+                    break;
+                }
+            }
+        }
+        if members.iter().any(|m| m.1 != members[0].1) {
+            report.count("texts_shared_by_differently_behaving_configs(known region included)", 1);
+        }
+    }
+}
+
+// ---------------------------------------------------------------------------------------------
+// known findings
+// ---------------------------------------------------------------------------------------------
+
+fn replay_known(report: &mut Report) {
+    for f in known_findings("C19") {
+        let id = f["id"].as_str().unwrap_or("?").to_owned();
+        let w = &f["witness"];
+        let still = match w["kind"].as_str() {
+            Some("roundtrip") => {
+                let text = w["config"].as_str().unwrap_or("");
+                match real_de(text) {
+                    Ok(cfg) => {
+                        let ser = real_ser(&cfg).unwrap_or_default();
+                        let b1 = behaviour(cfg);
+                        match real_de(&ser) {
+                            Ok(c2) => behaviour(c2) != b1,
+                            Err(_) => true,
+                        }
+                    }
+                    Err(_) => false,
+                }
+            }
+            Some("accepted-corruption") => real_de(w["config"].as_str().unwrap_or("")).is_ok(),
+            Some("worker-tree") => f13_stale(w["first"].as_str().unwrap_or(""), w["second"].as_str().unwrap_or("")) == Some(true),
+            _ => false,
+        };
+        if still {
+            report.known_finding(&id, f["expected_wrong"].as_str().unwrap_or(""));
+        }
+    }
+}
+
+/// F13: process with `first`, then again with `second` on the same WorkerTree; Some(true) when the second
+/// pass leaves outputs that differ from a fresh run with `second`
+fn f13_stale(first: &str, second: &str) -> Option<bool> {
+    let c1 = real_de(first).ok()?;
+    let c2 = real_de(second).ok()?;
+    let c2_fresh = real_de(second).ok()?;
+    let r = std::panic::catch_unwind(std::panic::AssertUnwindSafe(move || {
+        let resources = probe_resources();
+        let mut tree = WorkerTree::default();
+        let o1 = Options::new("src").with_output("out").with_configuration(c1);
+        tree.collect_work(&resources, &o1).ok()?;
+        tree.process(&resources, o1).ok()?;
+        let o2 = Options::new("src").with_output("out").with_configuration(c2);
+        tree.process(&resources, o2).ok()?;
+        let incremental: Vec<String> = PROBE_OUTPUTS.iter().map(|o| resources.get(o).unwrap_or_default()).collect();
+        let fresh_resources = probe_resources();
+        process(&fresh_resources, Options::new("src").with_output("out").with_configuration(c2_fresh)).ok()?;
+        let fresh: Vec<String> = PROBE_OUTPUTS.iter().map(|o| fresh_resources.get(o).unwrap_or_default()).collect();
+        Some(incremental != fresh)
+    }));
+    r.ok().flatten()
+}
+
+// ---------------------------------------------------------------------------------------------
+
+/// the probe project must react to every parameter the configurations vary, otherwise behavioural
+/// equality would be a weak judge; pairs that should behave differently are checked on every run
+fn probe_sensitivity(report: &mut Report) {
+    let pairs: &[(&str, &str)] = &[
+        ("{rules:['remove_comments']}", "{rules:[{rule:'remove_comments', except:['^--!']}]}"),
+        ("{rules:['remove_attribute']}", "{rules:[{rule:'remove_attribute', match:['native']}]}"),
+        ("{rules:['remove_assertions']}", "{rules:[{rule:'remove_assertions', preserve_arguments_side_effects:false}]}"),
+        ("{rules:['remove_debug_profiling']}", "{rules:[{rule:'remove_debug_profiling', preserve_arguments_side_effects:false}]}"),
+        ("{rules:['remove_interpolated_string']}", "{rules:[{rule:'remove_interpolated_string', strategy:'tostring'}]}"),
+        ("{rules:['rename_variables']}", "{rules:[{rule:'rename_variables', include_functions:true}]}"),
+        ("{rules:[{rule:'rename_variables', detect_globals:false}]}", "{rules:[{rule:'rename_variables', detect_globals:false, globals:['a','b']}]}"),
+        ("{rules:['rename_variables']}", "{rules:[{rule:'rename_variables', detect_globals:false}]}"),
+        ("{rules:[{rule:'inject_global_value', identifier:'VALUE', value:1}]}", "{rules:[{rule:'inject_global_value', identifier:'VALUE', value:'x'}]}"),
+        ("{rules:[{rule:'inject_global_value', identifier:'VALUE'}]}", "{rules:[{rule:'inject_global_value', identifier:'other'}]}"),
+        ("{rules:[{rule:'inject_global_value', identifier:'VALUE', env:'DLV_C19_UNSET_VARIABLE'}]}", "{rules:[{rule:'inject_global_value', identifier:'VALUE', env:'DLV_C19_UNSET_VARIABLE', default_value:3}]}"),
+        ("{rules:[{rule:'append_text_comment', text:'hi'}]}", "{rules:[{rule:'append_text_comment', text:'hi', location:'end'}]}"),
+        ("{rules:[{rule:'append_text_comment', text:'hi'}]}", "{rules:[{rule:'append_text_comment', file:'note.txt'}]}"),
+        ("{rules:[{rule:'convert_require', current:'path', target:'luau'}]}", "{rules:[{rule:'convert_require', current:'path', target:'roblox'}]}"),
+        ("{rules:[]}", "{rules:[], generator:'dense'}"),
+        ("{rules:[], generator:'dense'}", "{rules:[], generator:'readable'}"),
+        ("{rules:[], generator:'dense'}", "{rules:[], generator:{name:'dense', column_span:20}}"),
+        ("{rules:[]}", "{rules:[], bundle:{require_mode:'path'}}"),
+        ("{rules:[], bundle:{require_mode:'path'}}", "{rules:[], bundle:{require_mode:'path', modules_identifier:'__M'}}"),
+        ("{rules:[], bundle:{require_mode:'path'}}", "{rules:[], bundle:{require_mode:'path', excludes:['./lib']}}"),
+        ("{rules:['remove_empty_do']}", "{rules:[{rule:'remove_empty_do', skip_files:'**/b.lua'}]}"),
+        ("{rules:['remove_empty_do']}", "{rules:[{rule:'remove_empty_do', apply_to_files:'src/a.lua'}]}"),
+        ("{rules:['remove_empty_do']}", "{rules:['remove_empty_do'], skip_files:['src/b.*']}"),
+        ("{rules:['remove_empty_do']}", "{rules:['remove_empty_do'], apply_to_files:'**/a.lua'}"),
+    ];
+    for (a, b) in pairs {
+        match (real_de(a), real_de(b)) {
+            (Ok(ca), Ok(cb)) => {
+                if behaviour(ca) == behaviour(cb) {
+                    report.notes.push(format!("probe project does not tell `{}` from `{}`", a, b));
+                    report.count("probe_pairs_not_distinguished", 1);
+                } else {
+                    report.count("probe_pairs_distinguished", 1);
+                }
+            }
+            _ => report.notes.push(format!("probe pair not accepted: `{}` / `{}`", a, b)),
+        }
+    }
+}
+
+pub fn run(report: &mut Report, replay: Option<&str>) {
+    report.rule = "Valid configurations: every rule name in string and object form x each property at default and \
+        non-default values x filter forms (none/apply/skip/both; string, 1-array, n-array, empty array) x generator \
+        forms x bundle settings (enumerated), then seeded random multi-rule configurations; corruptions: every \
+        single-field corruption (extra key incl. every property name known to any rule, misspelt key, duplicate key, \
+        wrong JSON type) of a set of valid configurations. Non-trivial = a corruption, or a configuration with filters, \
+        a rule in object form, a generator or a bundle setting; distinct = distinct configuration text."
+        .to_owned();
+    let mut model = Model::spawn();
+    if let Some(path) = replay {
+        let text = std::fs::read_to_string(path).unwrap_or_default();
+        let v: Value = serde_json::from_str(&text).unwrap_or(Value::Null);
+        let input = if v.get("input").is_some() { v["input"].clone() } else { v.clone() };
+        if input["kind"] == "pair" {
+            // two configurations that serialise alike: re-judge both
+            let mut groups = BTreeMap::new();
+            let mut outcomes = Vec::new();
+            for key in ["a", "b"] {
+                if let Some(value) = input[key].as_str().and_then(|t| json5::from_str::<Value>(t).ok()) {
+                    let case = Case { j: J::from_value(&value), origin: "replay-pair".into(), must_reject: None };
+                    outcomes.push(check_case(&case, &mut model));
+                }
+            }
+            settle(report, outcomes, &mut groups);
+            check_groups(report, &groups);
+            return;
+        }
+        if let Some(cfg_text) = input["text"].as_str() {
+            let tree = input["sexp"].as_str().and_then(j_of_sexp).or_else(|| json5::from_str::<Value>(cfg_text).ok().map(|v| J::from_value(&v)));
+            if let Some(tree) = tree {
+                let case = Case {
+                    j: tree,
+                    origin: input["origin"].as_str().unwrap_or("replay").to_owned(),
+                    must_reject: input["must_reject"].as_str().map(|x| x.to_owned()),
+                };
+                let mut groups = BTreeMap::new();
+                let outcomes = vec![check_case(&case, &mut model)];
+                settle(report, outcomes, &mut groups);
+                return;
+            }
+        }
+        report.notes.push("replay file not understood; running the full check".into());
+    }
+    replay_known(report);
+    probe_sensitivity(report);
+    // ---- the tables agree: rule names, property names
+    let real_names: Vec<String> = darklua_core::rules::get_all_rule_names().iter().map(|x| x.to_string()).collect();
+    let model_names: Vec<String> = model.ask("c19.names").split(' ').map(|x| x.to_owned()).collect();
+    if real_names != model_names {
+        report.violation(Violation {
+            kind: "correspondence".into(),
+            check: "rule-names".into(),
+            what: format!("get_all_rule_names() = {:?}, model table = {:?}", real_names, model_names),
+            input: json!({"kind": "names"}),
+            failing_input_found: false,
+        });
+    }
+    report.exhaustive.insert("every rule name of get_all_rule_names() in string and object form".into(), true);
+    let schema: Vec<(String, String, String)> = model
+        .ask("c19.schema")
+        .split(' ')
+        .filter_map(|t| {
+            let mut p = t.splitn(3, ':');
+            Some((p.next()?.to_owned(), p.next()?.to_owned(), p.next()?.to_owned()))
+        })
+        .collect();
+    let mut all_keys: Vec<String> = schema.iter().map(|x| x.1.clone()).collect();
+    all_keys.sort();
+    all_keys.dedup();
+    // the harness variants cover every (rule, property) of the model's schema
+    for (rule, key, _) in &schema {
+        if !rule_variants(rule).iter().any(|v| v.iter().any(|(k, _)| k == key)) {
+            report.notes.push(format!("schema property {}.{} has no generated variant", rule, key));
+        }
+    }
+    let thorough = report.is_thorough();
+    let mut groups: BTreeMap<String, Vec<(String, String, bool)>> = BTreeMap::new();
+    // ---- valid configurations
+    let valid = valid_cases(&real_names, thorough);
+    report.count("enumerated_valid_cases", valid.len() as u64);
+    let mut rng = Rng::new(report.seed);
+    let mut random_cases = Vec::new();
+    for _ in 0..(if thorough { 150000 } else { 15000 }) {
+        random_cases.push(random_valid_case(&mut rng, &real_names));
+    }
+    // ---- corruptions of a set of bases: one per rule family + generator/bundle/top-level shapes
+    let mut bases: Vec<Case> = Vec::new();
+    for name in &real_names {
+        let variants = rule_variants(name);
+        let props = variants.last().unwrap().clone();
+        bases.push(Case {
+            j: config_with_rules(vec![rule_object(name, &props, &(Some(s("src/a.lua")), Some(arr_s(&["**/b.lua"]))), false)]),
+            origin: format!("base:{}", name),
+            must_reject: None,
+        });
+        if thorough {
+            for (vi, props) in variants.iter().enumerate().take(variants.len() - 1) {
+                bases.push(Case {
+                    j: config_with_rules(vec![rule_object(name, props, &(None, None), false)]),
+                    origin: format!("base:{}:variant{}", name, vi),
+                    must_reject: None,
+                });
+            }
+        }
+    }
+    bases.push(Case {
+        j: obj(vec![
+            ("rules", J::Arr(vec![s("remove_spaces")])),
+            ("generator", obj(vec![("name", s("dense")), ("column_span", J::Num(40))])),
+            (
+                "bundle",
+                obj(vec![
+                    ("require_mode", obj(vec![("name", s("path")), ("module_folder_name", s("index")), ("use_luau_configuration", J::Bool(false))])),
+                    ("modules_identifier", s("__M")),
+                    ("excludes", arr_s(&["@x"])),
+                ]),
+            ),
+            ("apply_to_files", s("src/**")),
+            ("skip_files", arr_s(&["**/b.lua"])),
+        ]),
+        origin: "base:generator-dense+bundle-path+top-filters".into(),
+        must_reject: None,
+    });
+    bases.push(Case {
+        j: obj(vec![
+            ("process", J::Arr(vec![])),
+            ("generator", obj(vec![("name", s("readable"))])),
+            ("bundle", obj(vec![("require_mode", obj(vec![("name", s("luau")), ("use_luau_configuration", J::Bool(true))]))])),
+        ]),
+        origin: "base:generator-readable+bundle-luau".into(),
+        must_reject: None,
+    });
+    bases.push(Case {
+        j: obj(vec![("generator", obj(vec![("name", s("retain_lines"))])), ("bundle", obj(vec![("require_mode", s("path"))]))]),
+        origin: "base:generator-retain_lines+bundle-string".into(),
+        must_reject: None,
+    });
+    let mut corrupted = Vec::new();
+    for b in &bases {
+        corrupted.extend(corruptions(b, &all_keys, &schema));
+    }
+    // unknown rule names
+    for bad in ["nope", "remove_call_match", "Remove_spaces", "remove_spaces ", ""] {
+        corrupted.push(Case { j: config_with_rules(vec![s(bad)]), origin: "unknown rule (string)".into(), must_reject: Some("unknown-rule".into()) });
+        corrupted.push(Case {
+            j: config_with_rules(vec![obj(vec![("rule", s(bad))])]),
+            origin: "unknown rule (object)".into(),
+            must_reject: Some("unknown-rule".into()),
+        });
+    }
+    // invalid patterns and regular expressions (contradictory properties are covered by the collisions below)
+    for bad in ["a**", "**/**", "src/[", "{a"] {
+        corrupted.push(Case { j: obj(vec![("apply_to_files", s(bad))]), origin: "invalid pattern (top)".into(), must_reject: Some("invalid-pattern".into()) });
+        corrupted.push(Case {
+            j: config_with_rules(vec![obj(vec![("rule", s("remove_spaces")), ("skip_files", arr_s(&["**", bad]))])]),
+            origin: "invalid pattern (rule)".into(),
+            must_reject: Some("invalid-pattern".into()),
+        });
+    }
+    for bad in BAD_REGEXES {
+        corrupted.push(Case {
+            j: config_with_rules(vec![obj(vec![("rule", s("remove_comments")), ("except", arr_s(&[bad]))])]),
+            origin: "invalid regex".into(),
+            must_reject: Some("invalid-regex".into()),
+        });
+    }
+    for (a, b) in [("text", "file")] {
+        corrupted.push(Case {
+            j: config_with_rules(vec![obj(vec![("rule", s("append_text_comment")), (a, s("x")), (b, s("note.txt"))])]),
+            origin: "contradictory properties".into(),
+            must_reject: Some("contradictory".into()),
+        });
+    }
+    for (a, b) in [("value", "env"), ("value", "env_json"), ("env", "env_json"), ("value", "default_value")] {
+        corrupted.push(Case {
+            j: config_with_rules(vec![obj(vec![("rule", s("inject_global_value")), ("identifier", s("V")), (a, s("x")), (b, s("y"))])]),
+            origin: "contradictory properties".into(),
+            must_reject: Some("contradictory".into()),
+        });
+    }
+    report.count("corruption_cases", corrupted.len() as u64);
+    report.exhaustive.insert(
+        "all single-field corruptions (extra key x every known property name, misspelt, duplicate, wrong type) of one base configuration per rule and three generator/bundle/top-level bases".into(),
+        true,
+    );
+    // corpus: finding witnesses and past disagreements, replayed on every run
+    let mut corpus = Vec::new();
+    let corpus_dir = concat!(env!("CARGO_MANIFEST_DIR"), "/../corpus/C19");
+    if let Ok(entries) = std::fs::read_dir(corpus_dir) {
+        let mut paths: Vec<_> = entries.flatten().map(|e| e.path()).collect();
+        paths.sort();
+        for path in paths {
+            if let Ok(text) = std::fs::read_to_string(&path) {
+                if let Ok(v) = serde_json::from_str::<Value>(&text) {
+                    let tree = v["sexp"].as_str().and_then(j_of_sexp).or_else(|| {
+                        v["text"].as_str().and_then(|t| json5::from_str::<Value>(t).ok()).map(|x| J::from_value(&x))
+                    });
+                    if let Some(tree) = tree {
+                        corpus.push(Case {
+                            j: tree,
+                            origin: format!("corpus:{}", path.file_name().and_then(|n| n.to_str()).unwrap_or("")),
+                            must_reject: v["must_reject"].as_str().map(|x| x.to_owned()),
+                        });
+                    }
+                }
+            }
+        }
+    }
+    report.count("corpus_cases", corpus.len() as u64);
+    let mut all = corpus;
+    all.extend(valid);
+    all.extend(random_cases);
+    all.extend(corrupted);
+    let outcomes = run_cases(all);
+    settle(report, outcomes, &mut groups);
+    check_groups(report, &groups);
 }
